@@ -112,17 +112,18 @@ def math_unit(ctx, src):
 def math_groups(ctx):
     H = 'harness/C20/math.c'
     gs = []
+    OTH = lambda name: ['gcd_' + t for t in getattr(ctx, 'gcd_others', []) if t != name]
     for name, un, w, sg in INT_TYPES:
         full = w in GCD_FULL_BITS
-        d = ['IntT=' + name, 'UIntT=' + un, 'W=%d' % w, 'SIGNED=%d' % sg, 'SFX=' + name, 'GCD_FULL=%d' % full]
-        dabs = ['IntT=' + name, 'UIntT=' + un, 'W=%d' % w, 'SIGNED=%d' % sg, 'SFX=' + name, 'GCD_FULL=0', 'GCD_ABS=1']
+        d = ['IntT=' + name, 'UIntT=' + un, 'W=%d' % w, 'SIGNED=%d' % sg, 'SFX=' + name, 'GCD_FULL=%d' % full, 'SFX_IS_%s=1' % name]
+        dabs = ['IntT=' + name, 'UIntT=' + un, 'W=%d' % w, 'SIGNED=%d' % sg, 'SFX=' + name, 'GCD_FULL=0', 'GCD_ABS=1', 'SFX_IS_%s=1' % name]
         gs.append(Group(name='Math.log2i<%s>' % name, harness=H, entry='h_log2i', function='log2i<%s>' % name,
                         enforce='log2i_' + name, defines=d,
                         clause_note='contracts/C20_math.h: 0 <= r < W and (v >> r) == 1, i.e. r = floor(log2 v), for every v > 0',
                         replay=Replay(driver='C20/math.cc', mode='log2i', extra=[name])))
         if not full:
             gs.append(Group(name='Math.gcd<%s>.partial' % name, harness=H, entry='h_gcd', function='gcd<%s>' % name,
-                            enforce='gcd_' + name, loops=True, defines=d, kind='loop-contract',
+                            enforce='gcd_' + name, replace=OTH(name), loops=True, defines=d, kind='loop-contract',
                             clause_note='contracts/C20_math.h: termination, no UB, gcd(a,0) = a, result 0 iff both arguments 0, '
                                         'result <= max(a,b) -- divisibility clauses not decided at this width',
                             replay=Replay(driver='C20/math.cc', mode='gcd', extra=[name])))
@@ -137,7 +138,7 @@ def math_groups(ctx):
             # the contract's clauses about the two ghost divisors are independent conjuncts: one run each (contracts/C20_math.h)
             for part in (1, 2):
                 gs.append(Group(name='Math.gcd<%s>.divisor-%s' % (name, 'd' if part == 1 else 'd2'), harness=H, entry='h_gcd',
-                                function='gcd<%s>' % name, enforce='gcd_' + name, loops=True, defines=d + ['GCD_PART=%d' % part],
+                                function='gcd<%s>' % name, enforce='gcd_' + name, replace=OTH(name), loops=True, defines=d + ['GCD_PART=%d' % part],
                                 kind='loop-contract', first='cadical', timeout=400,
                                 clause_note='contracts/C20_math.h: d | a and d | b <=> d | gcd(a,b) for the ghost divisor; gcd | a, gcd | b; gcd(a,0) = a',
                                 replay=Replay(driver='C20/math.cc', mode='gcd', extra=[name])))
@@ -201,6 +202,26 @@ def ctype(t):
     if t in ('T', 'bool', 'size_t', 'double'):
         return t
     raise ExtractionBreak('unexpected type %r in Vector-inl.hh' % t)
+
+
+def _tie_compare(mo):
+    """std::tie(a1, .., an) OP std::tie(b1, .., bn): the lexicographic comparison of std::tuple (element-wise, left to right), written out"""
+    a = [x.strip() for x in mo.group(1).split(',')]
+    op = mo.group(2)
+    b = [x.strip() for x in mo.group(3).split(',')]
+    if len(a) != len(b) or not all(a) or not all(b):
+        raise ExtractionBreak('std::tie comparison with %d against %d elements' % (len(a), len(b)))
+
+    def lt(x, y):
+        e = '((%s) < (%s))' % (x[-1], y[-1])
+        for xi, yi in reversed(list(zip(x[:-1], y[:-1]))):
+            e = '(((%s) < (%s)) || (!((%s) < (%s)) && %s))' % (xi, yi, yi, xi, e)
+        return e
+    eq = '(' + ' && '.join('((%s) == (%s))' % (x, y) for x, y in zip(a, b)) + ')'
+    return {'<': lt(a, b), '>': lt(b, a), '<=': '(!%s)' % lt(b, a), '>=': '(!%s)' % lt(a, b), '==': eq, '!=': '(!%s)' % eq}[op]
+
+
+TIE_RULE = Rule(r'(?:std::)?tie\(([^()]*)\)\s*(<=|>=|==|!=|<|>)\s*(?:std::)?tie\(([^()]*)\)', _tie_compare, count=None, regex=True)
 
 
 def vec_units(ctx, src):
@@ -307,6 +328,7 @@ def vec_units(ctx, src):
             rules.append(Rule(r'self->operator([^\s(]+)\(', _opcall, count=None, regex=True))
         if nm == 'at':
             rules.append(Rule('(this)', '(self)', count=1))
+        rules.append(TIE_RULE)
         kw = {}
         if cls == 'Matrix4':
             if nm == 'transposition':
@@ -542,6 +564,7 @@ def plan(ctx):
     src = Source(ctx.src)
     groups = []
     um = math_unit(ctx, src)
+    ctx.gcd_others = sorted(set(re.findall(r'GCD_INST\((\w+)\)', um.text())))     # other instantiations the text of gcd calls explicitly
     ctx.functions_under_contract = list(um.functions)
     groups += math_groups(ctx)
     # the two number-theoretic facts that the abstract-predicate proof of gcd assumes (D(0), Euclid step lemma) are checked by the Lean 4
